@@ -1,0 +1,14 @@
+//go:build !verif
+// +build !verif
+
+package sarama
+
+// verifEvt is a verification hook: a no-op unless the package is built with the `verif` tag
+// (see verif_hooks_on.go). Call sites only pass values that are already at hand.
+func verifEvt(kind string, msg *ProducerMessage, a, b int) {}
+
+// verifEvtKV is the variant for call sites that have no ProducerMessage.
+func verifEvtKV(kind string, key string, a, b int64) {}
+
+// verifEvtSet reports every message of a produce set.
+func verifEvtSet(kind string, set *produceSet, a int) {}
